@@ -227,6 +227,8 @@ def flatten(prog, enter, exit_):
     depth = 0
     inprog = []
     for ch in prog:
+        if ch == "!":
+            continue   # marker: this thread's (unbalanced) word runs to completion before any other thread starts
         body = enter if ch == "E" else exit_
         base = len(flat)
         for ins in body:
@@ -265,7 +267,9 @@ def encode(progs, enter, exit_, timeout_ms, witness=False):
     clocks = []
     fin = []
     events = []  # (thread, index, ins, exec formula, clock)
+    firstc, lastc = {}, {}
     for i, p in enumerate(progs):
+        stray = p.startswith("!")
         flat, inprog = flatten(p, enter, exit_)
         n = len(flat)
         g = [z3.Bool(f"g_{i}_{k}") for k in range(n + 1)]
@@ -288,6 +292,8 @@ def encode(progs, enter, exit_, timeout_ms, witness=False):
             clocks.append(c)
             s.add(c > prevc)
             prevc = c
+            firstc.setdefault(i, c)
+            lastc[i] = c
             ex = z3.And(g[k], lim > k)
             events.append((i, k, ins, ex, c))
             env = {}
@@ -316,7 +322,8 @@ def encode(progs, enter, exit_, timeout_ms, witness=False):
                 elif ins[1] == "gc.enable":
                     writes["gc"].append((ex, c, z3.BoolVal(True)))
                 elif ins[1].startswith("log."):
-                    if ins[1] == "log.error":
+                    if ins[1] == "log.error" and not stray:
+                        # (for a stray exit made while nothing is in progress the underflow branch is the specified behaviour)
                         bad.append(("underflow branch executed", ex))
                 else:
                     raise CannotEncode("call " + ins[1])
@@ -334,6 +341,13 @@ def encode(progs, enter, exit_, timeout_ms, witness=False):
         for k in range(1, n + 1):
             s.add(g[k] == (z3.Or(*inc[k]) if inc[k] else z3.BoolVal(False)))
         fin.append(lim == n)
+        if stray:
+            s.add(lim == n)
+    for i, p in enumerate(progs):
+        if p.startswith("!"):
+            for j in range(len(progs)):
+                if j != i and j in firstc:
+                    s.add(lastc[i] < firstc[j])
     s.add(z3.Distinct(*clocks))
     for ex, c, v, rv in reads:
         opts = []
@@ -493,6 +507,9 @@ def obligations(tier):
     obs = []
     for c in combos:
         obs.append(("po:" + "+".join(c), {"words": [words[n] for n in c], "names": list(c)}))
+    # an unbalanced exit made while nothing is in progress (sequentially first) must leave the guard as it was: the count never goes negative
+    for c in (("call",), ("call", "call"), ("nested",)):
+        obs.append(("po:stray-exit-first+" + "+".join(c), {"words": ["!X"] + [words[n] for n in c], "names": ["stray-exit-first", *c]}))
     obs.append(("twin:reachability", {"words": [words["call"], words["call"]], "twin": "witness"}))
     obs.append(("twin:mutant-no-lock", {"words": [words["call"], words["call"]], "twin": "nolock"}))
     obs.append(("twin:mutant-always-enable", {"words": [words["call"], words["call"]], "twin": "always-enable"}))
@@ -689,7 +706,7 @@ def replay(case):
         sys.settrace(tracer)
         try:
             depth = 0
-            for ch in word:
+            for ch in word.replace("!", ""):
                 if ch == "E":
                     bz3._enter_z3()
                     depth += 1
@@ -721,7 +738,7 @@ def replay(case):
         sched.step(tid)
     executed_all = mismatch is None and len(schedule) > 0
     gc_seen_enabled = [o for o in obs if o[1]]
-    under = mlog.errors > 0
+    under = mlog.errors > sum(w.count("X") for w in words if w.startswith("!"))   # a stray exit at count 0 logs the underflow by design
     neg = bool(negative) or bz3._active_z3_calls < 0
     # drain (round-robin; skip if every remaining thread is blocked)
     for _ in range(400):
@@ -744,7 +761,7 @@ def replay(case):
         viol.append("GC guard underflow branch executed")
     if neg:
         viol.append("in-progress counter went negative")
-    full = all(sum(1 for it in schedule if it["thread"] == i and it["kind"] == "zcall") == len(w) for i, w in enumerate(words))
+    full = all(sum(1 for it in schedule if it["thread"] == i and it["kind"] == "zcall") == len(w.replace("!", "")) for i, w in enumerate(words))
     if full and all_done and (final_gc != case["gc0"] or final_cnt != 0):
         viol.append(f"after all calls returned: gc enabled={final_gc} (initially {case['gc0']}), counter={final_cnt}")
     out = {"violated": bool(viol), "detail": "; ".join(viol) or f"schedule replayed without violation (model said: {which})",
